@@ -43,6 +43,9 @@ var props = map[string]propSpec{
 	"C01": {Scenarios: []string{"csync"}},
 	"C02": {Scenarios: []string{"csync"}},
 	"C03": {Scenarios: []string{"bcast"}},
+	"C04": {Scenarios: []string{"routine"}},
+	"C05": {Scenarios: []string{"routine"}},
+	"C14": {Scenarios: []string{"routine14"}},
 	"C12": {Scenarios: []string{"stack"}},
 	"C18": {Scenarios: []string{"conc"}},
 	"C16": {Scenarios: []string{"once"}},
